@@ -162,6 +162,17 @@ impl ConnectionLimits {
     }
 }
 
+#[cfg(litep2p_verif)]
+impl ConnectionLimits {
+    /// Connection ids currently counted as (incoming, outgoing) (verification seam).
+    pub fn verif_counted(&self) -> (Vec<ConnectionId>, Vec<ConnectionId>) {
+        (
+            self.incoming_connections.iter().copied().collect(),
+            self.outgoing_connections.iter().copied().collect(),
+        )
+    }
+}
+
 #[cfg(test)]
 mod tests {
     use super::*;
